@@ -19,6 +19,8 @@ def run(chk, tier):
         F = load(chk, cfg)
         B.quantify_arith(chk, F, 'R02.1', cfg)
         B.api_table(chk, F, 'R02.2', cfg)
+        from props import ctor
+        ctor.builder_constructors(chk, F, 'R02.0', cfg)
         position_is_rmw(chk, F, 'R02.3', cfg)
         segment_lookup(chk, F, 'R02.4', cfg)
         E.eval_table(chk, F, 'R02.5', cfg)
